@@ -163,6 +163,41 @@ class TOp2(_TOp):
         return TData(["op2", data.data, a, b])
 
 
+class TOpKw(_TOp):
+    """Term operation with a keyword-only defaulted parameter next to an ordinary one."""
+
+    def _process_logic(self, data, a, *, g="dg"):
+        return TData(["opkw", data.data, a, g])
+
+
+class TOpKwReq(_TOp):
+    """Term operation with a required keyword-only parameter next to a defaulted ordinary one."""
+
+    def _process_logic(self, data, a="da", *, g):
+        return TData(["opkwr", data.data, a, g])
+
+
+class TOp1DefSub(TOp1Def):
+    """Derived from a concrete operation: same parameter, another default."""
+
+    def _process_logic(self, data, a="dsub"):
+        return TData(["op1s", data.data, a])
+
+
+class TOp2Sub(TOp2):
+    """Derived from a concrete operation: the parent's defaulted parameter is required here."""
+
+    def _process_logic(self, data, a, b):
+        return TData(["op2s", data.data, a, b])
+
+
+class TOp1Sub(TOp1):
+    """Derived from a concrete operation: the parent's required parameter has a default here."""
+
+    def _process_logic(self, data, a="asub"):
+        return TData(["op1sub", data.data, a])
+
+
 class TOpW(_TOp):
     """Operation that also writes the context key `w` it declares."""
 
@@ -289,6 +324,35 @@ class TOpConsume(_TOp):
 
     def _process_logic(self, data, chunks):
         return TData(["consume", data.data, list(chunks)])
+
+
+def _hostile(name, exc=TypeError):
+    def method(self, *a, **k):
+        raise exc(f"{name} of an object that does not support it")
+    return method
+
+
+# term data whose special methods misbehave the way real wrapped objects do (a 0-d numpy array has __len__ and raises on len(),
+# a closed lazy collection raises on iteration, a proxy object raises on repr, ...): anything only *tracing* calls must not
+# change what a run returns or raises
+HOSTILE = {
+    "len-raises": type("THostileLen", (TData,), {"__len__": _hostile("len()"), "__doc__": "A term."}),
+    "len-negative": type("THostileNegLen", (TData,), {"__len__": lambda self: -1, "__doc__": "A term."}),
+    "len-huge": type("THostileHugeLen", (TData,), {"__len__": lambda self: 2 ** 70, "__doc__": "A term."}),
+    "repr-raises": type("THostileRepr", (TData,), {"__repr__": _hostile("repr()", RuntimeError), "__doc__": "A term."}),
+    "str-raises": type("THostileStr", (TData,), {"__str__": _hostile("str()", RuntimeError), "__doc__": "A term."}),
+    "iter-raises": type("THostileIter", (TData,), {"__iter__": _hostile("iter()"), "__doc__": "A term."}),
+    "bool-raises": type("THostileBool", (TData,), {"__bool__": _hostile("bool()", ValueError), "__doc__": "A term."}),
+    "reduce-raises": type("THostileReduce", (TData,), {"__reduce_ex__": _hostile("pickling"), "__doc__": "A term."}),
+    "getstate-raises": type("THostileState", (TData,), {"__getstate__": _hostile("__getstate__"), "__doc__": "A term."}),
+}
+
+
+class TOpMakeHostile(_TOp):
+    """Operation whose *output* is a term of one of the HOSTILE classes (C10)."""
+
+    def _process_logic(self, data, kind):
+        return HOSTILE[kind](["hostile-out", data.data])
 
 
 class TOpDrain(_TOp):
